@@ -269,6 +269,13 @@ class Policy:
 def random_arg(subj, aidx, rng):
     """The same action in one of the accepted representations."""
     if not subj.modes["flat_actions"]:
+        if rng.random() < 0.6:
+            from .paramspace import vector_for
+            v = vector_for(subj.spec, subj.descs[aidx], rng)
+            if v is not None:
+                r = rng.random()
+                return v if r < 0.5 else (tuple(v) if r < 0.75 else
+                                          np.array(v, dtype=np.int64))
         return subj.actions[aidx]
     r = rng.random()
     if r < 0.4:
